@@ -53,6 +53,7 @@ def valid_corpus(rnd, n_random, versions="234"):
     vs = []
     for ver in versions:
         vs += corpus.covering_vectors(rnd, ver)
+        vs += corpus.extremal_vectors(rnd, ver)
         for _ in range(n_random):
             vs.append(corpus.random_vector(rnd, ver))
     return vs
@@ -132,6 +133,21 @@ def run(prop, tier, seed):
             c.samples = [{"s": e["s"], "ver": e["ver"], "outcome": e["out"]["cls"] if e["out"]["cls"] == "ok" else e["out"]["e"]["exc"]} for e in ev[::max(1, len(ev) // 6)]][:8]
         elif prop in ("C07", "C08", "C15"):
             vs = valid_corpus(rnd, 1500 if not big else 30000, versions="23" if prop == "C15" else "234")
+            if prop == "C15":
+                # every base assignment of v2 and v3 (finite: 729 + 2 x 2 592) under a few shapes of the optional groups
+                import itertools
+                for ver in "23":
+                    mand = corpus.MAND[ver]
+                    opt = [m for m in corpus.ORDER[ver] if m not in mand]
+                    for combo in itertools.product(*[corpus.VALS[ver][m] for m in mand]):
+                        for minor in ([0, 1] if ver == "3" else [-1]):
+                            g = dict(zip(mand, combo))
+                            shape = rnd.randrange(4)
+                            for m in opt:
+                                # shapes: one or two optional metrics defined; a whole group defined; sparse random
+                                if (shape == 0 and rnd.random() < 0.12) or (shape == 1 and m in opt[:3]) or (shape == 2 and m in opt[3:5]) or (shape == 3 and rnd.random() < 0.4):
+                                    g[m] = rnd.choice([v for v in corpus.VALS[ver][m] if v != corpus.ND[ver]])
+                            vs.append((ver, minor, g, corpus.spell(ver, minor, g)))
             items = [{"op": "construct", "ver": v[0], "s": esc(v[3]), "json": False} for v in vs]
             ev = record_events(items, work)
             for e in ev:
